@@ -90,6 +90,7 @@ PROPS = {
         "per-decision check on the Coq model's decision log replayed from the Rust trace: picked package has maximal queue priority, every undecided positive package is queued with a priority reported for its current set",
         "NOT yet a Coq theorem (needs I7/I8). At every decision of every replayed run: the package the implementation asked about has the maximal last-reported priority (the model rejects the trace otherwise), every package with a positive term and no decision has a queue entry, and its latest prioritize call was for its current set. Static, set-dependent (count), scripted and history-dependent priorities are used. The root cause of F1 violated this and was found here."),
     "C10": {
+        "translator": True,
         "props": "Props/Properties_C10.v",
         "level": "proof",
         "technique": "Coq proof (functor over any ordered version type) of pointwise set laws, canonical form and extensional equality + exhaustive small-scope correspondence",
@@ -103,6 +104,7 @@ PROPS = {
                         "SmallVec abstracted to as_slice; std slice::binary_search_by trusted"],
     },
     "C11": {
+        "translator": True,
         "props": "Props/Properties_C11.v",
         "level": "proof",
         "technique": "Coq proof over any lawful VersionSet that the seven Term operations equal evaluation on every choice + exhaustive small-scope correspondence through cfg hooks",
@@ -115,6 +117,7 @@ PROPS = {
         "assumptions": ["choices are evaluated at one representative per cell of the bound values (order-isomorphism, as C10)"],
     },
     "C15": {
+        "translator": True,
         "props": "Props/Properties_C15.v",
         "level": "proof",
         "technique": "Coq proof of the query/Display specifications over the range model + exhaustive correspondence over ranges x sorted version sequences with law oracles",
@@ -126,6 +129,7 @@ PROPS = {
         "assumptions": ["versions are u32 in the harness; Display of u32 is decimal (modelled by dec_Z)"],
     },
     "C16": {
+        "translator": True,
         "props": "Props/Properties_C16.v",
         "level": "proof",
         "technique": "Coq proof that Range::cmp is the lexicographic order of bound positions (total, Eq iff ==) for all segment lists + exhaustive pairs / sampled-or-exhaustive triples correspondence",
@@ -138,6 +142,7 @@ PROPS = {
         "assumptions": ["std::hash::Hash for tuples/Bound/u32 and the hashers are trusted"],
     },
     "C17": {
+        "translator": True,
         "props": "Props/Properties_C17.v",
         "level": "proof",
         "technique": "Coq proof that the four provided VersionSet methods are correct for any lawful implementation of the required ones + exhaustive BitSet8 correspondence",
